@@ -1,6 +1,7 @@
 CONSTANTS
   Letters = {"_", "a", "-"}
-  Max = 7
+  L = 12
+  TailMax = 3
   Prefixes <- PT
 INIT GInit
 NEXT GNext
